@@ -165,3 +165,16 @@ Proof.
         intros o [<-|Hin]; [apply dynamic_no_panic | apply Hp; exact Hin]
     end.
 Qed.
+
+(* ------------------------------------------------------------------------------------------- *)
+(* Path 1 *)
+
+Lemma propose_seq_no_panic : forall ops, Forall delivered ops ->
+  propose_seq_now ops = map (fun i => (false, fst (propose_now i))) ops.
+Proof.
+  induction ops as [|i ops IH]; intros Hd; [reflexivity|].
+  inversion Hd as [|? ? Hi Hrest]; subst.
+  unfold propose_seq_now in *. cbn [propose_seq map].
+  pose proof (propose_no_panic i Hi) as Hp. unfold propose_now in *. rewrite Hp.
+  rewrite (IH Hrest). reflexivity.
+Qed.
